@@ -247,10 +247,32 @@ func (v *Vue) RenderFragment(w io.Writer, filename string, data any) error {
 }
 
 func (v *Vue) render(w io.Writer, nodes []*html.Node) error {
+	// The serialiser does not look at Write results: remember the first failure and report it
+	ew := &errWriter{w: w}
 	for _, node := range nodes {
-		if err := renderNode(w, node, 0); err != nil {
+		if err := renderNode(ew, node, 0); err != nil {
 			return err
 		}
+		if ew.err != nil {
+			return ew.err
+		}
 	}
-	return nil
+	return ew.err
+}
+
+// errWriter records the first error of the underlying writer and stops writing after it.
+type errWriter struct {
+	w   io.Writer
+	err error
+}
+
+func (e *errWriter) Write(p []byte) (int, error) {
+	if e.err != nil {
+		return 0, e.err
+	}
+	n, err := e.w.Write(p)
+	if err != nil {
+		e.err = err
+	}
+	return n, err
 }
